@@ -241,6 +241,14 @@ def check_select_context(key: int, pred: int, roe: bool, c: int, x: int) -> bool
         got = ("ok", True if sel(value) else False)
     except Boom:
         got = ("raises",)
+    # the same selector object applied again gives the same answer, and the
+    # key it was built from is unchanged
+    try:
+        again = ("ok", True if sel(mkvalue(False, x, c)) else False)
+    except Boom:
+        again = ("raises",)
+    if again != got or k != h.choose(["a", "a.b", ["a", "b"], "c"], key):
+        return h.ok(False)
     if not present:
         return h.ok(got == ("ok", False))
     if pred == 1:
